@@ -72,3 +72,15 @@ package model
 //@   property C18
 //@   at call Seal#1: assert arg0 == rec && arg1 == privateKey
 //@   ensures result1 == nil ==> count("call:Seal") == 1
+
+// The record methods the envelope calls back (C18): the whole request and nothing else is what gets
+// serialised and signed, and what is opened is decoded into the receiver itself.
+//@ func (*IngestRequest).MarshalRecord
+//@   property C18
+//@   at call Marshal#1: assert typeis(arg0, "*model.IngestRequest") && payload(arg0) == r
+//@   ensures-local count("call:Marshal") == 1
+//@ func (*IngestRequest).UnmarshalRecord
+//@   property C18
+//@   at call Unmarshal#1: assert arg0 == data && typeis(arg1, "*model.IngestRequest") && payload(arg1) == r && r != nil
+//@   ensures-local r == nil ==> result != nil && count("call:Unmarshal") == 0
+//@   ensures-local r != nil ==> count("call:Unmarshal") == 1
